@@ -3,7 +3,7 @@ import ast
 
 from . import rule, info
 from ..program import AnalysisError, src, norm, ClassInfo
-from ..util import (is_name, calls_in, callee_qual, deref, ancestors, evaluator_calls, units_of_class)
+from ..util import (is_name, calls_in, callee_qual, deref, ancestors, evaluator_calls, units_of_class, stmt_of)
 
 info('C06',
      explanation='Whole-package effect inventory from an allocation-site points-to analysis with '
@@ -396,4 +396,53 @@ def vars_base_consumed_at_construction(ctx):
     gu = ctx.unit('core.Vars.glomit')
     reads = [n for n in gu.own_nodes() if isinstance(n, ast.Attribute) and is_name(n.value, gu.params[0]) and n.attr == st.ast.targets[0].attr]
     ctx.ob(bool(reads), gu, 'evaluation reads the stored base (%d)' % len(reads))
+    ctx.floor(2)
+
+
+MUTATORS = {'append', 'extend', 'insert', 'pop', 'popitem', 'remove', 'clear', 'update', 'setdefault', 'move_to_end',
+            'sort', 'reverse', 'add', 'discard', '__setitem__', '__delitem__', 'appendleft', 'rotate'}
+LOOKUP_UNITS = ('core.TargetRegistry.get_handler', 'core.TargetRegistry._get_closest_type', 'core.TargetRegistry.get_type_map')
+
+
+@rule('C06.19')
+def lookup_is_read_only(ctx):
+    """resolving a handler reads the registrations and writes only the lookup memo: the type maps
+    and the (order-sensitive) type trees are changed by register() / register_op() alone.  A
+    lookup that reorders or fills them ("probe the hot branch first", "remember the default map")
+    makes later resolutions depend on which targets were looked up before"""
+    n = 0
+    for q in LOOKUP_UNITS:
+        u = ctx.unit(q)
+        cfg = ctx.cfg(u)
+        selfn = u.params[0]
+        writes = []
+        for x in u.own_nodes():
+            if isinstance(x, (ast.Assign, ast.AugAssign, ast.AnnAssign, ast.Delete)):
+                tg = x.targets if isinstance(x, (ast.Assign, ast.Delete)) else [x.target]
+                for t in tg:
+                    for e in (t.elts if isinstance(t, ast.Tuple) else [t]):
+                        if isinstance(e, (ast.Attribute, ast.Subscript)):
+                            writes.append((e, x))
+            elif isinstance(x, ast.Call) and isinstance(x.func, ast.Attribute) and x.func.attr in MUTATORS:
+                writes.append((x.func.value, x))
+        for e, st in writes:
+            n += 1
+            memo = isinstance(e, ast.Subscript) and norm(e.value) == '%s._type_cache' % selfn and isinstance(st, ast.Assign)
+            root = e
+            while isinstance(root, (ast.Attribute, ast.Subscript, ast.Call)):
+                root = root.value if not isinstance(root, ast.Call) else root.func
+            fresh = False
+            if isinstance(root, ast.Name) and root.id not in u.all_params:
+                at = cfg.node_of(st) if not isinstance(st, ast.Call) else cfg.node_of(stmt_of(st))
+                defs = [v for _, v in cfg.reaching_defs(at, root.id)]
+                fresh = bool(defs) and all(isinstance(v, (ast.List, ast.Dict, ast.Set, ast.ListComp, ast.DictComp, ast.SetComp, ast.Constant))
+                                           or (isinstance(v, ast.Call) and is_name(v.func) and v.func.id in ('list', 'dict', 'set', 'sorted', 'OrderedDict') )
+                                           for v in defs)
+            ok = memo or fresh
+            ctx.ob(ok, u, '%s writes only the lookup memo: %s' % (u.name, norm(st)[:70]),
+                   'the memo entry' if memo else 'a container built here' if fresh else
+                   'a lookup changes the registry itself (%s): the next resolution depends on the lookups made before it' % norm(e)[:50], node=st)
+    u = ctx.unit(LOOKUP_UNITS[0])
+    ctx.require(n >= 1, 'get_handler: memo store not found')
+    ctx.ob(True, u, 'writes examined in %s: %d' % (', '.join(q.rsplit('.', 1)[1] for q in LOOKUP_UNITS), n))
     ctx.floor(2)
